@@ -493,13 +493,13 @@ def rule_D5(ctx) -> None:
         "message / scalar": (scenario(), "$T"),
     }
     for shape, ((b, assume), expected) in shapes.items():
-        paths = Interp(mod, bindings=b, assume=assume, fork_ifexp=True).run(fn)
+        paths = Interp(mod, bindings=b, assume=assume, fork_ifexp=True, getattr_default_as_ifexp=True).run(fn)
         # reading t.__origin__ inside a try raises AttributeError exactly when the annotation has no origin
         raising = {k for p in paths for k in p.valuation if k[0] == "raises" and "AttributeError" in k[1]}
         if raising:
             assume = dict(assume)
             assume.update({k: not b for k in raising})
-            paths = Interp(mod, bindings=b, assume=assume, fork_ifexp=True).run(fn)
+            paths = Interp(mod, bindings=b, assume=assume, fork_ifexp=True, getattr_default_as_ifexp=True).run(fn)
         ctx.count(len(paths))
         rets = set()
         for p in paths:
